@@ -70,6 +70,7 @@ type fixedProg struct {
 	slow      bool // fewer repetitions
 	many      bool // cheap and order-sensitive: 40 in-process repetitions
 	noGMW     bool // contains a division: the GMW divider has millions of gates
+	noPrune   bool // pruning removes the gates that make the circuit order-sensitive
 	noHistory bool
 }
 
@@ -164,7 +165,7 @@ func main(a, b [3]byte) (string, int, uint64) {
 	// initialisers emit instructions (array element reads are not folded);
 	// the order in which they are initialised decides gate order and wire
 	// numbering.
-	res = append(res, fixedProg{many: true, Case: Case{Kind: "multi", Name: "min-init-order",
+	res = append(res, fixedProg{many: true, noPrune: true, Case: Case{Kind: "multi", Name: "min-init-order",
 		Tags: []string{"lib:min-init-order"},
 		Main: `package main
 
